@@ -130,7 +130,42 @@ pub fn gen_program(rng: &mut Rng, b: &Board) -> Vec<GenOp> {
         prog.push(GenOp::H);
     }
     let masks = if kind == 2 { vec![!0u64] } else { mask_sequence(rng, b, &ms) };
+    let mut first_mask = true;
     for m in masks {
+        // staged use (captures first, then drop the hash move, then the rest): a removal made BETWEEN two masks,
+        // i.e. after the previous mask was exhausted and before the next one is set, is "beforehand" too
+        if !first_mask && rng.chance(1, 3) {
+            let n = 1 + rng.below(2);
+            for _ in 0..n {
+                if rng.chance(1, 4) {
+                    let mm = match rng.below(3) {
+                        0 => rng.next_u64() & rng.next_u64(),
+                        1 => m & rng.next_u64(),
+                        _ => 1u64 << rng.below(64),
+                    };
+                    prog.push(GenOp::Y(mm));
+                } else {
+                    let inmask: Vec<ChessMove> = ms.iter().cloned().filter(|x| (1u64 << x.get_dest().to_index()) & m != 0).collect();
+                    if !inmask.is_empty() && rng.chance(2, 3) {
+                        prog.push(GenOp::X(inmask[rng.below(inmask.len())]));
+                    } else {
+                        prog.push(GenOp::X(interesting_removal(rng, b, &ms)));
+                    }
+                }
+            }
+            if rng.chance(1, 2) {
+                prog.push(GenOp::L);
+            }
+        }
+        first_mask = false;
+        if rng.chance(1, 6) {
+            // a mask that is set and replaced again before anything is yielded under it (sometimes queried)
+            let junk = match rng.below(3) { 0 => 0u64, 1 => rng.next_u64(), _ => !m };
+            prog.push(GenOp::K(junk));
+            if rng.chance(1, 2) {
+                prog.push(GenOp::L);
+            }
+        }
         prog.push(GenOp::K(m));
         // removals are also "beforehand" when they come after a mask was set (or after the previous
         // mask was exhausted) but before any move is yielded under it
